@@ -510,7 +510,20 @@ func wireOp(w *simWorld, actor int, op *Op) {
 			second = ""
 			first = f.Name
 		}
+		lastBefore := u.Attrs[len(u.Attrs)-1]
 		applyFault(u, first, v.cfg, uint64(op.N>>4))
+		if second == "attr_overrun" {
+			// attr_overrun damages the LAST attribute. If the first fault put its own attribute there
+			// (or changed it), both errors sit on one attribute and RFC 7606 does not say which wins
+			// (the overrun is detected before the attribute is looked at): do not compose.
+			l := u.Attrs[len(u.Attrs)-1]
+			if l.Type != lastBefore.Type || l.Flags != lastBefore.Flags || string(l.Val) != string(lastBefore.Val) || l.DeclLen != lastBefore.DeclLen {
+				second = ""
+				u = baseUpdate(v.cfg, pfx, tag, uint64(op.N))
+				applyFault(u, f.Name, v.cfg, uint64(op.N>>4))
+				w.probe("fault_pair_same_attribute_skipped")
+			}
+		}
 		drop := []uint8{}
 		if f.Drop != 0 {
 			drop = append(drop, f.Drop)
